@@ -10,6 +10,9 @@ k_out = k
 if p.startswith('u'):
     p = 'c' + p[1:]
     k_out = str(int(k) + 2)
+elif p.startswith('w'):
+    p = 'c' + p[1:]
+    k_out = str(int(k) + 4)
 dst = '/verif/seeded/%s-%s' % (p.upper(), k_out)
 os.makedirs(dst, exist_ok=True)
 shutil.copy(os.path.join(src, 'change%s.diff' % k), os.path.join(dst, 'patch.diff'))
